@@ -48,6 +48,11 @@ CLAIMED = {
    note="Trusted: Coq kernel + vm_compute; introspection extractor; virtual-time loop. Partial: asyncio.wait timeout / future-callback semantics are assumed as modelled (exercised, not proved); real wall-clock drift is outside the model. Closed under the global context.",
    technique="Rocq proof (assoc-list fold lemmas; inductive invariant over arbitrary label lists) + generated tables + trace correspondence under virtual time",
    design="3/C17"),
+ "C19": dict(
+   text="Machine-checked proof over a byte-string model of the shell's snapshot writer (block dump as a list of hex strings, firmware / config / log version lines) and of the parser's extraction functions: the block dump parses back to exactly the same bytes for ANY non-empty byte list (split/join, strip, hex text round trip proved for all values), version lines round-trip for any naturals, a traffic log of STATV datagrams reassembles to the concatenated segment data for any segmentation (via the C04 codec), every shipped snapshot (regenerated through the REAL parser on every run) has a 1024-byte block and names existing table modules, and a client fetching it from the simulator receives it unchanged (C01 theorems instantiated). Correspondence: real GeckoShell.do_snapshot text through the real logging formatter into the real GeckoSnapshot.parse_log_file (composition checked directly), every produced and adversarial line through the model's extraction functions vs the real regex table, real traffic-log reassembly, all 34 shipped files loaded into the real simulator and served to a real client.",
+   note="Trusted: Coq kernel + vm_compute; correspondence driver; Python re validated differentially per extraction function; logging prefix, repr()/ast.literal_eval of bytes are exercised, not modelled (one genuine defect in that residue was found by the correspondence and repaired: fix 5e5c2b4). Pack-name / snapshot-name extraction is modelled and validated but its round trip is not proved (greedy groups). Closed under the global context.",
+   technique="Rocq proof (positional-notation round trip by induction, list split/join lemmas) + finite vm_compute over regenerated snapshots + writer/parser composition on the real code",
+   design="3/C19"),
 }
 
 REASON_PENDING = "check not built yet in this round (model and correspondence under construction; see DESIGN.md section 8)"
